@@ -340,6 +340,12 @@ func lookup(instr *ssa.Lookup, x, idx value) value {
 // numeric datatypes and strings.  Both operands must have identical
 // dynamic type.
 func binop(op token.Token, t types.Type, x, y value) value {
+	if _, ok := x.(litseg); ok {
+		return litBinop(op, y)
+	}
+	if _, ok := y.(litseg); ok {
+		return litBinop(op, x)
+	}
 	if isSym(x) || isSym(y) {
 		return symBinop(op, x, y)
 	}
